@@ -20,11 +20,27 @@ import (
 )
 
 type params struct {
-	Calls int      `json:"calls"` // message ids 1..Calls
-	Env   []string `json:"env"`   // environment threads, e.g. "ack:1", "result:1", "result:2", "error:1", "cancel:1", "close"
+	Calls int `json:"calls"` // message ids 1..Calls
+	// Env: environment threads, e.g. "ack:1", "result:1", "result:2", "error:1", "cancel:1", "close". A suffix "@k" on ack/result/error
+	// makes the "server" react to the k-th transmission of the request only (the earlier copies were lost): "result:1@2".
+	Env []string `json:"env"`
 	// SendErr: the transport reports a write error for call 1 although the bytes went out,
 	// so the server can still answer the request whose Do is returning with that error
 	SendErr bool `json:"send_err,omitempty"`
+	// SendErrAt: the same for the k-th transmission of call 1 (a re-send); SendErr is SendErrAt=1
+	SendErrAt int `json:"send_err_at,omitempty"`
+	// MaxRetries of the engine (0 = 2)
+	MaxRetries int `json:"max_retries,omitempty"`
+	// Seq: the calls are made one after the other by ONE caller thread (call k+1 starts when call k has returned), so
+	// that answers for an earlier, finished invocation arrive while a later one is pending on the same engine
+	Seq bool `json:"seq,omitempty"`
+}
+
+func (p params) sendErrAt() int {
+	if p.SendErr {
+		return 1
+	}
+	return p.SendErrAt
 }
 
 type payload struct{ v int32 }
@@ -52,64 +68,90 @@ type rpcErr struct{ id int }
 
 func (e rpcErr) Error() string { return fmt.Sprintf("RPC_ERROR_FOR_%d", e.id) }
 
+// parseEnv splits "op:id@k".
+func parseEnv(e string) (op string, id, k int) {
+	k = 1
+	if i := strings.Index(e, "@"); i >= 0 {
+		if _, err := fmt.Sscanf(e[i+1:], "%d", &k); err != nil {
+			panic("bad env " + e)
+		}
+		e = e[:i]
+	}
+	if n, _ := fmt.Sscanf(strings.ReplaceAll(e, ":", " "), "%s %d", &op, &id); n < 1 {
+		panic("bad env " + e)
+	}
+	return op, id, k
+}
+
 func body(p params, o *sx.Obs) {
-	var sentFlag func(int) *sx.Flag
+	nsent := map[int]int{} // transmissions per message id
+	maxRetries := p.MaxRetries
+	if maxRetries == 0 {
+		maxRetries = 2
+	}
 	eng := rpc.New(func(ctx context.Context, msgID int64, seqNo int32, in bin.Encoder) error {
 		o.Log("send %d", msgID)
-		sentFlag(int(msgID)).Set()
-		if p.SendErr && msgID == 1 {
+		nsent[int(msgID)]++
+		if msgID == 1 && nsent[1] == p.sendErrAt() {
 			return errors.New("write: broken pipe")
 		}
 		return nil
-	}, rpc.Options{Clock: sx.Clock{}, RetryInterval: time.Second, MaxRetries: 2, DropHandler: func(req rpc.Request) error {
+	}, rpc.Options{Clock: sx.Clock{}, RetryInterval: time.Second, MaxRetries: maxRetries, DropHandler: func(req rpc.Request) error {
 		o.Log("drop %d", req.MsgID)
 		return nil
 	}})
+	// the "server" talks about a request only after it received it; ids nobody sends may be mentioned at any time
+	awaitSend := func(id, k int) {
+		vsched.Cond("await-send", func() bool { return id > p.Calls || nsent[id] >= k })
+	}
 	var g sx.Group
 	cancels := map[int]context.CancelFunc{}
-	sent := map[int]*sx.Flag{}
-	for id := 1; id <= p.Calls+1; id++ {
-		sent[id] = &sx.Flag{}
-	}
-	sent[p.Calls+1].Set() // ids nobody sends: the "server" may talk about them at any time
-	sentFlag = func(id int) *sx.Flag { return sent[id] }
+	ctxs := map[int]context.Context{}
 	for id := 1; id <= p.Calls; id++ {
-		id := id
-		ctx, cancel := vctx.WithCancel(vctx.Background())
-		cancels[id] = cancel
-		g.Go(fmt.Sprintf("call%d", id), func() {
-			err := eng.Do(ctx, rpc.Request{MsgID: int64(id), SeqNo: int32(2*id - 1), Input: payload{int32(id)}, Output: output{o, id}})
-			kind := "nil"
-			var re rpcErr
-			switch {
-			case err == nil:
-			case errors.As(err, &re):
-				kind = fmt.Sprintf("rpcerr%d", re.id)
-			default:
-				kind = "other"
+		ctxs[id], cancels[id] = vctx.WithCancel(vctx.Background())
+	}
+	do := func(id int) {
+		err := eng.Do(ctxs[id], rpc.Request{MsgID: int64(id), SeqNo: int32(2*id - 1), Input: payload{int32(id)}, Output: output{o, id}})
+		kind := "nil"
+		var re rpcErr
+		switch {
+		case err == nil:
+		case errors.As(err, &re):
+			kind = fmt.Sprintf("rpcerr%d", re.id)
+		default:
+			kind = "other"
+		}
+		o.Log("ret %d %s", id, kind)
+	}
+	if p.Seq {
+		g.Go("calls", func() {
+			for id := 1; id <= p.Calls; id++ {
+				do(id)
 			}
-			o.Log("ret %d %s", id, kind)
 		})
+	} else {
+		for id := 1; id <= p.Calls; id++ {
+			id := id
+			g.Go(fmt.Sprintf("call%d", id), func() { do(id) })
+		}
 	}
 	for i, e := range p.Env {
-		var op string
-		var id int
-		if n, _ := fmt.Sscanf(strings.ReplaceAll(e, ":", " "), "%s %d", &op, &id); n < 1 {
-			panic("bad env " + e)
-		}
+		e := e
+		op, id, k := parseEnv(e)
 		name := fmt.Sprintf("env%d-%s", i, e)
 		switch op {
 		case "ack":
-			g.Go(name, func() { sent[id].Wait("await-send"); eng.NotifyAcks([]int64{int64(id)}) })
+			g.Go(name, func() { awaitSend(id, k); o.Log("deliver %s", e); eng.NotifyAcks([]int64{int64(id)}) })
 		case "result":
 			g.Go(name, func() {
-				sent[id].Wait("await-send")
+				awaitSend(id, k)
+				o.Log("deliver %s", e)
 				var b bin.Buffer
 				b.PutInt32(int32(100 + id)) // the result addressed to id carries 100+id
 				_ = eng.NotifyResult(int64(id), &b)
 			})
 		case "error":
-			g.Go(name, func() { sent[id].Wait("await-send"); eng.NotifyError(int64(id), rpcErr{id}) })
+			g.Go(name, func() { awaitSend(id, k); o.Log("deliver %s", e); eng.NotifyError(int64(id), rpcErr{id}) })
 		case "cancel":
 			g.Go(name, func() { cancels[id]() })
 		case "close":
@@ -163,7 +205,7 @@ func check(p params, o *sx.Obs, x *vsched.Sched) kit.Result {
 			// The environment answers (ack/result/error) only after the request was sent, so a call that
 			// got a result, an error, a cancel or a close must return; a call that was only acknowledged
 			// legitimately waits forever.
-			if mustReturn(p, id) {
+			if mustReturn(p, o, id) {
 				return kit.Bad("no-return", "call %d never returned although a result/error/cancel/close was delivered; blocked: %v", id, x.Blocked)
 			}
 			continue
@@ -185,10 +227,20 @@ func check(p params, o *sx.Obs, x *vsched.Sched) kit.Result {
 	return kit.OKo(o.String())
 }
 
-func mustReturn(p params, id int) bool {
+func mustReturn(p params, o *sx.Obs, id int) bool {
 	for _, e := range p.Env {
-		if e == "close" || e == fmt.Sprintf("result:%d", id) || e == fmt.Sprintf("error:%d", id) || e == fmt.Sprintf("cancel:%d", id) {
+		op, eid, k := parseEnv(e)
+		switch {
+		case op == "close":
 			return true
+		case eid != id:
+		case op == "cancel":
+			return true
+		case op == "result" || op == "error":
+			// an answer to a later transmission obliges only if that transmission happened (it was then delivered)
+			if k == 1 || o.Has("deliver "+e) {
+				return true
+			}
 		}
 	}
 	return false
@@ -200,21 +252,35 @@ func scan(s, format string, a ...any) bool {
 }
 
 func scenarios() []params {
+	sc := func(calls int, env ...string) params { return params{Calls: calls, Env: env} }
+	withErr := func(p params) params { p.SendErr = true; return p }
 	return []params{
-		{1, []string{"ack:1", "result:1", "cancel:1"}, false},
-		{1, []string{"result:1", "result:1", "cancel:1"}, false},
-		{1, []string{"ack:1", "error:1", "result:1"}, false},
-		{1, []string{"result:1", "close"}, false},
-		{1, []string{"ack:1", "cancel:1", "close"}, false},
-		{1, []string{"result:2", "cancel:1"}, false},
-		{1, []string{"error:1", "cancel:1", "result:1"}, false},
-		{2, []string{"result:2", "result:1"}, false},
-		{2, []string{"result:1", "result:3", "cancel:2"}, false},
-		{2, []string{"ack:1", "result:1", "close"}, false},
-		{2, []string{"error:2", "result:1", "cancel:1"}, false},
-		{1, []string{"result:1"}, true},
-		{1, []string{"result:1", "ack:1"}, true},
-		{1, []string{"error:1", "result:1"}, true},
+		sc(1, "ack:1", "result:1", "cancel:1"),
+		sc(1, "result:1", "result:1", "cancel:1"),
+		sc(1, "ack:1", "error:1", "result:1"),
+		sc(1, "result:1", "close"),
+		sc(1, "ack:1", "cancel:1", "close"),
+		sc(1, "result:2", "cancel:1"),
+		sc(1, "error:1", "cancel:1", "result:1"),
+		sc(2, "result:2", "result:1"),
+		sc(2, "result:1", "result:3", "cancel:2"),
+		sc(2, "ack:1", "result:1", "close"),
+		sc(2, "error:2", "result:1", "cancel:1"),
+		withErr(sc(1, "result:1")),
+		withErr(sc(1, "result:1", "ack:1")),
+		withErr(sc(1, "error:1", "result:1")),
+		// an error for an id nobody waits for
+		sc(1, "error:2", "result:1"),
+		// the invocation ends on the retry path (first copy lost, the server answers the re-sent one): retry limit reached /
+		// the re-send transmits and reports a write error, while the answer to that copy is on its way
+		{Calls: 1, Env: []string{"result:1@2"}, MaxRetries: 1},
+		{Calls: 1, Env: []string{"error:1@2", "result:1@2"}, MaxRetries: 1},
+		{Calls: 1, Env: []string{"result:1@2"}, SendErrAt: 2},
+		// history on one engine: a second invocation by the same caller while a duplicate / late answer for the first, finished
+		// (answered or cancelled) one is still being delivered
+		// (the concurrent 2-call scenarios above already contain "call 2 starts after call 1 returned" as schedules; this one adds the
+		// duplicate answer for the finished call with the order of the calls forced)
+		{Calls: 2, Seq: true, Env: []string{"result:1", "result:1", "result:2"}},
 	}
 }
 
@@ -232,8 +298,9 @@ func main() {
 			sx.Explore(c, mk(scs[0]), 0, 0, 1)
 			return
 		}
-		c.Rule("real rpc.Engine (instrumented copy of /repo/rpc), 1-2 concurrent Do calls plus environment threads {ack, result, duplicate result, "+
-			"result for another id, rpc error, cancel, ForceClose}; every interleaving at every sync operation with at most %d preemptions/early-timer "+
+		c.Rule("real rpc.Engine (instrumented copy of /repo/rpc), 1-2 Do calls (concurrent, or one after the other by the same caller on the same engine) plus environment threads {ack, result, duplicate result, "+
+			"result/error for another id, rpc error, cancel, ForceClose, answers that react only to the re-sent copy}; transport write error after the bytes went out on the first or on the re-sent transmission; MaxRetries 1-2 "+
+			"(invocation ending with the retry limit while the answer arrives); every interleaving at every sync operation with at most %d preemptions/early-timer "+
 			"deviations for 1-call scenarios and one less for 2-call scenarios (stateless DFS, iterative context bounding); oracle on the event log: one return per call, no write for another id, at most one "+
 			"write, no write overlapping or following the return, nil result only with a completed own write, rpc error only its own. distinct = distinct schedules.", bound)
 		c.Assume("scheduling points at every channel/mutex/atomic/context/timer operation of the instrumented package; memory model below Go happens-before not explored")
